@@ -382,7 +382,7 @@ impl Xot {
     /// ```
     pub fn insert_after(&mut self, reference_node: Node, new_sibling: Node) -> Result<(), Error> {
         self.add_structure_check(self.parent(reference_node), new_sibling)?;
-        self.sibling_reference_check(reference_node)?;
+        self.sibling_reference_check(reference_node, new_sibling)?;
         // already right after the reference node: nothing to do
         if self.previous_sibling(new_sibling) == Some(reference_node) {
             return Ok(());
@@ -407,7 +407,7 @@ impl Xot {
     /// Insert a new sibling before a reference node.
     pub fn insert_before(&mut self, reference_node: Node, new_sibling: Node) -> Result<(), Error> {
         self.add_structure_check(self.parent(reference_node), new_sibling)?;
-        self.sibling_reference_check(reference_node)?;
+        self.sibling_reference_check(reference_node, new_sibling)?;
         // already right before the reference node: nothing to do
         if self.next_sibling(new_sibling) == Some(reference_node) {
             return Ok(());
@@ -943,10 +943,20 @@ impl Xot {
 
     // a normal node cannot become the sibling of an attribute or namespace
     // node: it would end up in between them.
-    fn sibling_reference_check(&self, reference_node: Node) -> Result<(), Error> {
+    fn sibling_reference_check(
+        &self,
+        reference_node: Node,
+        new_sibling: Node,
+    ) -> Result<(), Error> {
         if !self.value(reference_node).is_normal() {
             return Err(Error::InvalidOperation(
                 "Cannot insert a sibling next to an attribute or namespace node".into(),
+            ));
+        }
+        // has to be refused before text consolidation takes place
+        if reference_node == new_sibling {
+            return Err(Error::InvalidOperation(
+                "Cannot insert a node next to itself".into(),
             ));
         }
         Ok(())
